@@ -173,13 +173,14 @@ def _search_shard(pid, tier, seed, shard, nshards, deadline):
 
     # 1. exhaustive / enumerated parts (sharded round-robin)
     enum = getattr(mod, 'enumerate_cases', None)
-    if enum is not None:
+    enum_sh = getattr(mod, 'enumerate_sharded', None)
+    if enum is not None or enum_sh is not None:
         acc.engines.add('enumeration')
         n = 0
         complete = True
-        for i, case in enumerate(enum(tier)):
-            if i % nshards != shard:
-                continue
+        it = enum_sh(tier, shard, nshards) if enum_sh is not None else (
+            c for i, c in enumerate(enum(tier)) if i % nshards == shard)
+        for case in it:
             if time.time() > deadline:
                 acc.inconclusive = True
                 complete = False
